@@ -226,6 +226,42 @@ theorem psV5PublishAlias_refuse (c : C) (p : Pkt) (rel : Option Nat) (v : Bool) 
   simp only [hp]
   (repeat' split) <;> refuse_tac
 
+/-- fix 1d0ef05: a refusal before the handler (version, role) of a packet carrying the in-use
+    id it was given to start an exchange announces that id -/
+theorem refuseSend_refuse (c : C) (e : Nat) (p : Pkt) (id : Nat) (hi : initiatingId p = some id)
+    (hu : isUsed c.s id = true) : Refuse c (refuseSend c e p) id := by
+  unfold refuseSend
+  simp only [hi]
+  refuse_tac
+
+/-- the packets that start an exchange carry their identifier as `initiatingId` -/
+theorem initiatingId_of_kind {p : Pkt} {id : Nat}
+    (hk : p.kind = .publish ∨ p.kind = .subscribe ∨ p.kind = .unsubscribe) (hp : p.pid = some id) :
+    initiatingId p = some id := by
+  unfold initiatingId; rw [if_pos hk, hp]
+
+/-- exact outcome of `refuseSend` -/
+theorem refuseSend_none (c : C) (e : Nat) (p : Pkt) (hi : initiatingId p = none) :
+    refuseSend c e p = c.err e := by
+  unfold refuseSend; rw [hi]
+
+theorem refuseSend_unused (c : C) (e : Nat) (p : Pkt) (id : Nat) (hi : initiatingId p = some id)
+    (hu : isUsed c.s id = false) : refuseSend c e p = c.err e := by
+  unfold refuseSend; rw [hi]
+  show releaseIfUsed (c.err e) id = _
+  exact releaseIfUsed_unused (c := c.err e) (by simpa using hu)
+
+theorem refuseSend_used {c : C} (h : Wf c) (e : Nat) (p : Pkt) (id : Nat) (hi : initiatingId p = some id)
+    (hu : isUsed c.s id = true) :
+    refuseSend c e p =
+      { c with s := { c.s with pidMan := (Alloc.deallocate c.s.pidMan id).2 },
+               ev := c.ev ++ [.error e, .released id] } := by
+  unfold refuseSend; rw [hi]
+  have hw : Wf (c.err e) := h.congr (by simp) (by simp)
+  show releaseIfUsed (c.err e) id = _
+  rw [releaseIfUsed_used hw (by simpa using hu)]
+  simp [C.push, C.err]
+
 theorem Refuse.left {c c1 c' : C} {id : Nat} (r : Refuse c1 c' id) (q : Quiet c c1)
     (e : errs c1.ev = errs c.ev) : Refuse c c' id := by
   unfold Refuse at *
